@@ -205,8 +205,8 @@ cfg["C07"]["runs"].append({"dir": COB, "inline_go": True, "quick": P("VerifMerge
 
 cfg["C16"] = {
     "title": "The recovery log replays exactly the uncommitted events", "design_ref": "DESIGN.md §4 C16",
-    "runs": [{"dir": "wal", "quick": P("VerifHydro", "ops=3", "ops=4"), "thorough": P("VerifHydro", "ops=3", "ops=4", "ops=5"), "samples": 4}],
-    "bounds": "operation sequences of length <= 4 (thorough 5) over {log type a, log type b, log an unregistered type, commit the k-th logged event, recover}, every handler outcome symbolic per call (Decode error, Check error, Check not-needed, Handle error/ok)",
+    "runs": [{"dir": "wal", "quick": P("VerifHydro", "ops=3", "ops=4"), "thorough": P("VerifHydro", "ops=3", "ops=4", "ops=5,c=0"), "samples": 4}],
+    "bounds": "operation sequences of length <= 4 (thorough 5 without the last two operations) over {log type a, log type b, log an unregistered type, commit the k-th logged event, recover, log type c, restart with a Hydro that no longer has the handler of type c}, every handler outcome symbolic per call (Decode error, Check error, Check not-needed, Handle error/ok)",
     "outside": "persistence and sequence monotonicity across process restarts (bbolt/Lithium is I/O), concurrent loggers, the key codec for arbitrary 64-bit ids (ids here are the concrete sequence numbers 1..n handed out by the model store)",
     "assumptions": [common_stubs + "; kv.KV: ordered in-memory table with a sequence counter (Scan returns entries in key order through a model channel); haxmap: insertion-ordered table; encoding/json: opaque deep-copy token"],
 }
@@ -228,14 +228,16 @@ cfg["C29"] = {
 }
 cfg["C36"] = {
     "title": "Client watch streams retry transparently", "design_ref": "DESIGN.md §4 C36",
-    "runs": [{"dir": "client/interceptor", "quick": P("VerifStreamRetry", "max=1,recv=2,listed=1", "max=0,recv=2,listed=1", "max=1,recv=1,listed=0"),
-              "thorough": P("VerifStreamRetry", "max=1,recv=2,listed=1", "max=0,recv=2,listed=1", "max=1,recv=1,listed=0", "max=2,recv=2,listed=1", "max=1,recv=3,listed=1"), "samples": 3}],
+    "runs": [{"dir": "client/interceptor", "quick": P("VerifStreamRetry", "max=1,recv=2,listed=1", "max=0,recv=2,listed=1", "max=1,recv=1,listed=0", "max=2,recv=1,listed=1,cancel=1"),
+              "thorough": P("VerifStreamRetry", "max=1,recv=2,listed=1", "max=0,recv=2,listed=1", "max=1,recv=1,listed=0", "max=2,recv=2,listed=1", "max=1,recv=3,listed=1", "max=2,recv=1,listed=1,cancel=1", "max=3,recv=2,listed=1,cancel=1"), "samples": 3}],
     "bounds": "retry budget Max in {0,1,2}; up to 3 RecvMsg calls by the caller; every server-side outcome symbolic per call: message / EOF / error / context.Canceled, reopen ok/fail, re-send ok/fail",
-    "outside": "real gRPC transport and back-off timing: backoff.Retry is modelled by its contract (repeat until nil or the policy says Stop; no sleeping), ExponentialBackOff by a constant delay; cancellation observed only through the context.Canceled error (ctx.Done() is not modelled); NewUnaryRetry",
+    "outside": "real gRPC transport and back-off timing: backoff.Retry is modelled by its contract (repeat until nil or the policy says Stop; no sleeping), ExponentialBackOff by a constant delay; the caller cancelling its context while a reopen attempt is in flight is a symbolic event (cancel=1); NewUnaryRetry",
     "assumptions": [common_stubs + "; grpc.ClientStream / Streamer: in-harness models; sync.RWMutex: real SSA over sequential atomics"],
 }
 
 cfg["C33"]["runs"].append({"dir": CPUMEM, "permute_ranges": [GCP], "quick": [], "thorough": P("VerifRealloc", "c=2,numa=1", "c=3,numa=1,or=1000"), "samples": 1})
+cfg["C06"]["runs"].append({"dir": CPUMEM, "step_budget": 300000, "quick": P("VerifRealloc", "c=2,numa=0,or=1000,mp=200", "c=2,numa=0,or=1000,mp=300,d=1000,mode=1"), "thorough": P("VerifRealloc", "c=2,numa=0,or=1000,mp=200", "c=2,numa=0,or=1000,mp=300,d=1000,mode=1", "c=3,numa=0,or=2000,mp=200"), "samples": 1})
+cfg["C06"]["bounds"] += "; the affinity path (CalculateRealloc of a bound workload) on oversold cores (up to 2-3 share bases per core)"
 cfg["C06"]["runs"].append({"dir": SCHED, "permute_ranges": [GCP], "quick": [], "thorough": P("VerifPlans", "c=2,numa=1,r=1000,v=0"), "samples": 1})
 
 cfg["C12"] = {
@@ -324,6 +326,11 @@ cfg["C26"] = {
     "outside": "the Redis backend (SETNX / EXPIRE / DEL against a server); a paused registrant keeps believing until its next heartbeat (inherent to leases: the exclusivity claim is about registrants whose heartbeat ran); selfmon's use of the key (its watcher half is C28); real time (the ticker is a channel the harness feeds)",
     "assumptions": [common_stubs, etcd_model, "time.NewTicker: a harness-fed channel per keepalive loop; context: tree model with real Done channels"],
 }
+
+cfg["C13"]["runs"].append({"dir": ETCDM, "quick": P("VerifBatchCreateAndDecr", "v=1"), "thorough": P("VerifBatchCreateAndDecr", "v=1", "v=1,sched=lazy", "v=1,choices=3"), "samples": 3})
+cfg["C13"]["bounds"] += "; etcd backend's atomic step: the real ETCD.BatchCreateAndDecr (read, compare-and-swap transaction through doBatchOp with its goroutines, retry loop) over the model etcd from a symbolic pre-state (marker missing / not a number / any count in [0,9], the workload key present or not) with another client optionally decrementing the marker before the first or second commit"
+cfg["C13"]["outside"] = cfg["C13"]["outside"].replace("the two store backends themselves: that etcd's BatchCreateAndDecr transaction / Redis' pipeline add the workload and decrement the marker atomically, and how GetDeployStatus scans keys, is I/O against external servers and is replaced by a model with exactly that contract", "the Redis backend (a pipeline against a server: I/O) and how GetDeployStatus scans keys; in the cluster-level runs the store is a model with the add-and-decrement contract (the etcd implementation of that step is checked separately against the model etcd)")
+cfg["C13"]["assumptions"] = cfg["C13"]["assumptions"] + [etcd_model]
 
 cfg["C35"] = {
     "title": "RPC authentication accepts exactly matching credentials", "design_ref": "DESIGN.md §4 C35 / §7.2",
